@@ -28,7 +28,7 @@ Inductive rvt :=
 | VSecret (n : name)                                  (* Store.Secret(n): a handle is handed out *)
 | VRead (r : nat) (n : name) (now_s : Z)              (* reader r calls its handle for n: ONE locked step *)
 | VLookupBegin (n : name)                             (* the lookup's request leaves; no lock held *)
-| VLookupEnd (n : name) (v : N) (b : V) (now_s : Z)   (* answered: install + handle under the lock *)
+| VLookupEnd (n : name) (v : N) (b : V) (now_s : Z)   (* answered: the flight's locked part (Store.lookup_finish) *)
 | VLookupFail (n : name)                              (* answered with an error: nothing *)
 | VPollBegin (now_ns : Z)                             (* snapshotActive under the lock *)
 | VPollReq (n : name)                                 (* a conditional request outside the lock *)
@@ -54,7 +54,12 @@ Definition rstep (x : rstate) (e : rvt) : rstate :=
     | (s', Some v) => RS s' inst (log ++ [RD r n v (length inst)])
     | (s', None) => RS s' inst log        (* nil dereference: excluded for handles by C12_read_enabled *)
     end
-  | VLookupEnd n v b now_s => RS (fst (lookup_install s n v b now_s)) (inst ++ [(n, b)]) log
+  | VLookupEnd n v b now_s =>
+    (* a separate event from VLookupBegin, i.e. exactly a late flight: anything may have happened since
+       the request left.  The code after the F8 repair (104da0c) keeps an entry that exists by now, so
+       an install is appended to the ghost list only when the name was not yet valued *)
+    RS (fst (lookup_finish s n v b now_s))
+       (match entry s n with Some _ => inst | None => inst ++ [(n, b)] end) log
   | VPollApply ups =>
     match ups with
     | [] => x
